@@ -129,52 +129,250 @@ def r1(ctx, F, bs):
     ctx.note('C06.R1 control: time readers under run_local: %s' % sorted({c for _, _, c in ctl}))
 
 
+NAME_CONV = ('to_owned', 'to_os_string', 'to_path_buf', 'into_os_string', 'as_os_str', 'from', 'into', 'clone', 'as_ref', 'as_path', 'deref', 'borrow', 'to_string', 'as_str')
+
+
+def chase_tuple(fl, op):
+    """(tuple local, field index) when the operand is (a reference to / a field of) one element of a tuple-typed local,
+    followed through single-definition copies, references and field projections; else None."""
+    b = fl.body
+    cur = op
+    for _ in range(16):
+        if cur['k'] == 'const':
+            return None
+        l, proj = cur['p']['l'], cur['p']['proj']
+        for pr in proj:
+            if isinstance(pr, dict) and 'f' in pr and not pr.get('name') and b.local_ty(l).lstrip('&').startswith('('):
+                return (l, pr['f'])
+            break_named = isinstance(pr, dict)
+            if break_named:
+                break
+        ds = fl.defs.get(l, [])
+        if len(ds) != 1:
+            return None
+        bb, idx, kind, data, dproj = ds[0]
+        if kind != 'assign':
+            return None
+        if data['k'] in ('use', 'cast') and data['ops'][0]['k'] != 'const':
+            cur = data['ops'][0]
+        elif data['k'] == 'ref':
+            cur = {'k': 'copy', 'p': data['p']}
+        else:
+            return None
+    return None
+
+
+def tuple_sides(bs, fl, tl, idx):
+    """per aggregate assigned to tuple local `tl`: the replica side ('a'/'b'/'?') its element `idx` belongs to"""
+    A = fl.body
+    out = []
+    for (bb, i, kind, data, dproj) in fl.defs.get(tl, []):
+        if kind != 'assign' or data['k'] != 'agg' or dproj or idx >= len(data['ops']):
+            continue
+        os_ = fl.origins(data['ops'][idx])
+        side = '?'
+        if bs.is_param(os_, 'root_a'):
+            side = 'a'
+        elif bs.is_param(os_, 'root_b'):
+            side = 'b'
+        else:
+            ss = set()
+            for o in os_:
+                if o.kind == 'call' and o.key.endswith('::get'):
+                    m = call_arg_origins(fl, o.bb, 0)
+                    ss.add('a' if bs.is_param(m, 'a') else 'b' if bs.is_param(m, 'b') else '?')
+                else:
+                    ss.add('?')
+            if len(ss) == 1:
+                side = ss.pop()
+        out.append((bb, side))
+    return out
+
+
+def name_pieces(ctx, F, bs, data_op, depth=0):
+    """symbolic value of one string operand appended to the conflict-copy name:
+    [str | ('host',) | ('int',) | ('digest', helper path, operand) | ('?', what)]"""
+    A, fl = bs.apply, bs.afl
+    v = const_val(data_op)
+    if isinstance(v, str):
+        return [v]
+    if data_op['k'] == 'const':
+        return [('?', 'constant')]
+    os_ = [o for o in fl.origins(data_op) if o.kind != 'comb']
+    if os_ and bs.is_param(set(os_), 'host'):
+        return [('host',)]
+    if len(os_) == 1 and os_[0].kind == 'const' and isinstance(os_[0].key, str):
+        return [os_[0].key]
+    ty = A.local_ty(data_op['p']['l']).replace('&', '').strip() if not data_op['p']['proj'] else ''
+    if ty in ('u8', 'u16', 'u32', 'u64', 'usize', 'i8', 'i16', 'i32', 'i64', 'isize'):
+        return [('int',)]
+    if len(os_) == 1 and os_[0].kind == 'call' and os_[0].bb is not None:
+        o = os_[0]
+        t = A.blocks[o.bb]['term']
+        last = o.key.split('::')[-1]
+        if o.key in ('std::fmt::format', 'alloc::fmt::format'):
+            from shtemplate import Templates
+            site = Templates(F).site_of_call(A, o.bb)
+            if site is None:
+                return [('?', 'format site')]
+            # the MIR operands of the arguments, in argument order: [Argument::new_*(&x), ..]
+            argops = format_arg_operands(fl, t)
+            out = []
+            for p_ in site['pieces']:
+                if isinstance(p_, str):
+                    out.append(p_)
+                elif argops is None or not (0 <= p_['arg'] < len(argops)) or argops[p_['arg']] is None:
+                    out.append(('?', 'format argument'))
+                elif p_.get('trait') not in (None, 'Display') or p_.get('width', -1) not in (-1, None):
+                    out.append(('?', 'formatted with %s' % p_.get('trait')))
+                else:
+                    out.extend(name_pieces(ctx, F, bs, argops[p_['arg']], depth + 1))
+            return out
+        if F.body(o.key) is not None and t['args']:
+            return [('digest', o.key, t['args'][0])]
+        if last in NAME_CONV and t['args'] and t['args'][0]['k'] != 'const' and depth < 6:
+            return name_pieces(ctx, F, bs, t['args'][0], depth + 1)
+    return [('?', root_name(fl, data_op))]
+
+
+def format_arg_operands(fl, fmt_term):
+    """operands x of `Argument::new_display(&x)` in argument order for a `format(Arguments::new(template, &[..]))` call; None if the shape is unknown"""
+    A = fl.body
+    for o in fl.origins(fmt_term['args'][0]):
+        if o.kind != 'call' or 'Arguments' not in o.key or o.bb is None:
+            continue
+        at = A.blocks[o.bb]['term']
+        for arg in at['args'][1:]:
+            for ao in fl.origins(arg):
+                if ao.kind == 'agg' and ao.key == 'array' and ao.bb is not None:
+                    for st in A.blocks[ao.bb]['stmts']:
+                        if st['rv']['k'] == 'agg' and st['rv'].get('ak') == 'array':
+                            res = {}
+                            for el in st['rv']['ops']:
+                                eo = [x for x in fl.origins(el) if x.kind == 'call' and 'Argument' in x.key and x.bb is not None]
+                                if len(eo) != 1:
+                                    return None
+                                # `Argument::new_display(&*(args.i))`: i is the index of the argument in the macro call
+                                ref = A.blocks[eo[0].bb]['term']['args'][0]
+                                ds = fl.defs.get(ref['p']['l'], []) if ref['k'] != 'const' else []
+                                f = None
+                                if len(ds) == 1 and ds[0][2] == 'assign' and ds[0][3]['k'] == 'ref':
+                                    f = next((pr['f'] for pr in ds[0][3]['p']['proj'] if isinstance(pr, dict) and 'f' in pr), None)
+                                if f is None:
+                                    return None
+                                res[f] = deref_operand(fl, ref)
+                            return [res.get(i) for i in range(max(res) + 1)] if res else []
+        if len(at['args']) == 1:
+            return []
+    return None
+
+
+def deref_operand(fl, op):
+    """`&x` / `&*(&x)` / `&(*tuple.i)` -> the operand for x (single definitions only)"""
+    A = fl.body
+    cur = op
+    for _ in range(8):
+        if cur['k'] == 'const':
+            return cur
+        l, proj = cur['p']['l'], cur['p']['proj']
+        if proj and proj != ['deref']:
+            # (tuple.i) possibly dereferenced: the element the tuple was built with
+            f = next((pr['f'] for pr in proj if isinstance(pr, dict) and 'f' in pr), None)
+            ds = [d for d in fl.defs.get(l, []) if d[2] == 'assign' and d[3]['k'] == 'agg']
+            if f is None or len(ds) != 1 or f >= len(ds[0][3]['ops']):
+                return cur
+            cur = ds[0][3]['ops'][f]
+            continue
+        ds = fl.defs.get(l, [])
+        if len(ds) != 1 or ds[0][2] != 'assign':
+            return {'k': 'copy', 'p': {'l': l, 'proj': []}}
+        data = ds[0][3]
+        if data['k'] == 'ref' and not [pr for pr in data['p']['proj'] if pr != 'deref']:
+            nxt = {'k': 'copy', 'p': {'l': data['p']['l'], 'proj': []}}
+            if A.local_name(data['p']['l']) or not fl.defs.get(data['p']['l']) or fl.defs[data['p']['l']][0][2] != 'assign':
+                return nxt
+            cur = nxt
+        elif data['k'] == 'ref':
+            cur = {'k': 'copy', 'p': data['p']}
+        elif data['k'] == 'use' and data['ops'][0]['k'] != 'const' and not A.local_name(l):
+            cur = data['ops'][0]
+        else:
+            return {'k': 'copy', 'p': {'l': l, 'proj': []}}
+    return cur
+
+
 def r3(ctx, F, bs):
-    A = bs.apply
-    fl = bs.afl
-    # the format site that builds the suffix
-    sites = [f for f in F.formats if f['file'].endswith('bin/copia/bidir.rs') and A.lo <= f['line'] <= A.hi
-             and any(isinstance(p, str) and 'conflict' in p for p in f['pieces'])]
-    if len(sites) != 1:
-        ctx.missing('C06.R3', 'apply: the format!(".conflict-…") site (found %d)' % len(sites))
-    f = sites[0]
-    lits = [p for p in f['pieces'] if isinstance(p, str)]
-    holes = [p for p in f['pieces'] if not isinstance(p, str)]
-    shape = f['pieces'] and f['pieces'][0] == '.conflict-' and len(holes) == 2 and len(lits) == 2 and lits[1] == '-' \
-        and len(f['pieces']) == 4 and not isinstance(f['pieces'][1], str) and not isinstance(f['pieces'][3], str)
-    args = f['args']
-    good = False
-    if shape:
-        a_host = args[holes[0]['arg']]
-        a_hash = args[holes[1]['arg']]
-        host_ok = a_host.get('k') == 'var' and bs.roles.get('host') is not None and \
-            bs.is_param(fl.origins(local_op(A, a_host['name'])), 'host')
-        hash_ok = a_hash.get('k') == 'call' and a_hash['func'].split('::')[-1] == 'short_hex' and len(a_hash['args']) == 1 \
-            and a_hash['args'][0].get('k') == 'field' and a_hash['args'][0]['name'] == 'blake3'
-        # the fingerprint whose digest is printed is the loser's (4th element of the winner tuple)
-        loser_ok = False
-        if hash_ok and a_hash['args'][0]['base'].get('k') == 'var':
-            for l in A.locals_named(a_hash['args'][0]['base']['name']):
-                for (bb, idx, kind, data, dproj) in fl.defs.get(l, []):
-                    if kind == 'assign' and data['k'] == 'use' and data['ops'][0]['k'] != 'const':
-                        pr = data['ops'][0]['p']['proj']
-                        if pr and isinstance(pr[-1], dict) and pr[-1].get('f') == 3:
-                            loser_ok = True
-        good = host_ok and hash_ok and loser_ok
-    # appended to rel
-    pushes = [(pb, pt) for pb, pt in fl.calls_to('std::ffi::OsString::push')]
-    app = False
-    for pb, pt in pushes:
-        tgt = fl.origins(pt['args'][0])
-        if bs.is_param({o for o in tgt}, 'rel') and any(o.kind == 'call' and o.key == 'std::fmt::format' for o in fl.origins(pt['args'][1])):
-            app = True
-    ctx.check(shape and good and app, 'C06.R3', 'apply:loser-name', 'rel + ".conflict-" + host + "-" + short_hex(lose_fp.blake3)',
-              'the conflict-copy name is not <path>.conflict-<host>-<short hex of the loser\'s digest> (template %s, args %s)' % (
-                  f['pieces'], [a.get('src', a.get('name')) for a in args]), '%s:%d (bidir::apply)' % (f['file'], f['line']))
-    # short_hex
-    sh = F.body('bidir::short_hex')
+    """the conflict copy is named  rel + ".conflict-" + host + "-" + <12 hex digits of the LOSER's digest>  [+ "." + counter]:
+    the name is evaluated symbolically from the values appended to it, whatever the spelling (format!, several pushes, a helper)"""
+    A, fl = bs.apply, bs.afl
+    cfg = fl.cfg
+    copies = [c for c in bs.copy_sites() if c[3][0] == 'derived' and 'BothChanged' in bs.arm_of(c[0])]
+    if not copies:
+        ctx.missing('C06.R3', 'apply: conflict copies onto a derived name in the BothChanged arm')
+    helper = None
+    where = term_loc(A, copies[0][0])
+    problems, unknown = [], []
+    src_elem = None
+    for cb, ct, src, dst in copies:
+        # the name: second operand of the join(s) behind the destination
+        name_ops = []
+        for o in fl.origins(ct['args'][1]):
+            if o.kind == 'call' and o.key == 'std::path::Path::join':
+                name_ops.append(A.blocks[o.bb]['term']['args'][1])
+        for nop in name_ops:
+            os_ = fl.origins(nop, mut_calls=True)
+            pushes = sorted({o.bb for o in os_ if o.kind == 'mutcall' and o.key.split('::')[-1] in ('push', 'push_str')})
+            base = {o for o in fl.origins(nop) if o.kind != 'comb'}
+            if not bs.is_param(base, 'rel'):
+                problems.append('the name does not start from the conflicting path (%s)' % sorted({'%s:%s' % (o.kind, o.key) for o in base}))
+            order = sorted(pushes, key=lambda x: sum(1 for y in pushes if y != x and cfg.dominates(y, x)))
+            must, may = [], []
+            for pb in order:
+                pcs = name_pieces(ctx, F, bs, A.blocks[pb]['term']['args'][1])
+                (must if cfg.dominates(pb, cb) else may).append(pcs)
+            flat = []
+            for pcs in must:
+                for x in pcs:
+                    if isinstance(x, str) and flat and isinstance(flat[-1], str):
+                        flat[-1] += x
+                    elif x != '':
+                        flat.append(x)
+            for x in flat + [y for pcs in may for y in pcs]:
+                if not isinstance(x, str) and x[0] == '?':
+                    unknown.append(x[1])
+            shape = len(flat) == 4 and flat[0] == '.conflict-' and flat[1] == ('host',) and flat[2] == '-' and flat[3][0] == 'digest'
+            if not shape:
+                problems.append('name template is rel + %s' % ' + '.join(x if isinstance(x, str) and False else repr(x) if isinstance(x, str) else '<%s>' % x[0] for x in flat))
+            for pcs in may:
+                if any(not isinstance(x, str) and x[0] not in ('int', '?') for x in pcs):
+                    problems.append('an optional suffix depends on more than a counter')
+            if shape:
+                helper = flat[3][1]
+                dg = chase_tuple(fl, flat[3][2])
+                sr = None
+                for o in fl.origins(ct['args'][0]):
+                    if o.kind == 'call' and o.key == 'std::path::Path::join':
+                        sr = chase_tuple(fl, A.blocks[o.bb]['term']['args'][0])
+                if dg is None or sr is None or dg[0] != sr[0]:
+                    unknown.append('winner/loser are not elements of one tuple')
+                else:
+                    ds_, ss_ = dict(tuple_sides(bs, fl, dg[0], dg[1])), dict(tuple_sides(bs, fl, sr[0], sr[1]))
+                    if not ds_ or set(ds_) != set(ss_) or '?' in set(ds_.values()) | set(ss_.values()):
+                        unknown.append('sides of the winner/loser tuple')
+                    elif any(ds_[k] != ss_[k] for k in ds_):
+                        problems.append('the digest in the name is not the digest of the content that is copied there (the copy holds side %s, the name shows side %s)' % (
+                            sorted(ss_.values()), sorted(ds_.values())))
+                    src_elem = sr
+    if not problems and unknown:
+        ctx.undecided('C06.R3', 'apply: the conflict-copy name is built from a value outside the model (%s)' % '; '.join(sorted(set(unknown))))
+    ctx.check(not problems, 'C06.R3', 'apply:loser-name', 'rel + ".conflict-" + host + "-" + hex12(loser digest) [+ "." + counter]',
+              'the conflict-copy name is not <path>.conflict-<host>-<short hex of the loser\'s digest>: %s' % '; '.join(sorted(set(problems))), where)
+    # the digest renderer (found by use, not by name)
+    sh = F.body(helper) if helper else None
     if sh is None:
-        ctx.missing('C06.R3', 'bidir::short_hex')
+        if problems:
+            return
+        ctx.missing('C06.R3', 'the helper rendering the digest in the conflict-copy name')
     sfl = flow_of(sh)
     six = False
     for bi in sfl.cfg.reachable():
@@ -182,11 +380,11 @@ def r3(ctx, F, bs):
             rv = st['rv']
             if rv['k'] == 'agg' and rv.get('adt') == 'std::ops::RangeTo' and rv['ops'][0]['k'] == 'const' and rv['ops'][0].get('v') == 6:
                 six = True
-    fs = [f2 for f2 in F.formats if f2['file'].endswith('bin/copia/bidir.rs') and sh.lo <= f2['line'] <= sh.hi]
+    fs = [f2 for f2 in F.formats if f2['file'] == sh.file and sh.lo <= f2['line'] <= sh.hi]
     hex2 = len(fs) == 1 and len(fs[0]['pieces']) == 1 and not isinstance(fs[0]['pieces'][0], str) and \
         fs[0]['pieces'][0]['trait'] == 'LowerHex' and fs[0]['pieces'][0]['width'] == 2 and fs[0]['pieces'][0]['zero_pad']
     ctx.check(six and hex2, 'C06.R3', 'short_hex', 'h[..6] printed with {:02x} (12 hex digits)',
-              'short_hex no longer prints exactly the first 6 bytes as two lower-case hex digits each (6-byte range: %s, {:02x}: %s)' % (six, hex2), loc(sh, sh.lo))
+              'the digest helper no longer prints exactly the first 6 bytes as two lower-case hex digits each (6-byte range: %s, {:02x}: %s)' % (six, hex2), loc(sh, sh.lo))
 
 
 def local_op(body, name):
